@@ -5,6 +5,7 @@ import GsModel.Text.Escape
 import GsModel.Ops.Gather
 import GsModel.Sec.Serve
 import GsModel.Params.Bind
+import GsModel.Pair.Encode
 import GsModel.Schema.Valid
 /-
   Model driver: one JSON request per line on stdin, one JSON response per line on stdout.
@@ -141,6 +142,44 @@ def handleBind (j : Json) : Json :=
     | _ => none
   Json.mkObj [("r", Json.str "ok"), ("gen", boundJson (Params.bindGenAny p raw)), ("ref", boundJson (Params.bindRefAny p raw))]
 
+def jsonVal (j : Json) : Option Params.Val :=
+  match j.getObjVal? "s", j.getObjVal? "i", j.getObjVal? "b" with
+  | .ok (.str x), _, _ => some (.s x)
+  | _, .ok v, _ => (v.getInt?.toOption).map Params.Val.i
+  | _, _, .ok (.bool b) => some (.b b)
+  | _, _, _ => none
+
+def jsonBound (j : Json) : Params.Bound :=
+  match Diff.J.str j "k" with
+  | "one" => match jsonVal ((j.getObjVal? "v").toOption.getD .null) with
+      | some v => .one v
+      | none => .reject
+  | "many" => .many ((Diff.J.arr j "v").filterMap jsonVal)
+  | "absent" => .absent
+  | _ => .reject
+
+/-- {"op":"pair.roundtrip","spec":{..},"value":Bound} → {"wire":null|[s..],"bound":Bound}: what the client sends, what the server binds from it -/
+def handlePair (j : Json) : Json :=
+  let p := pspec ((j.getObjVal? "spec").toOption.getD .null)
+  let v := jsonBound ((j.getObjVal? "value").toOption.getD .null)
+  let wire := Pair.encodeGen p v
+  let wj : Json := match wire with
+    | none => Json.null
+    | some ws => Json.arr (ws.map (fun w => Json.str (String.ofList w))).toArray
+  Json.mkObj [("r", Json.str "ok"), ("wire", wj), ("bound", boundJson (Params.bindGenAny p wire))]
+
+/-- {"op":"resp.dispatch","declared":[200,404],"default":true,"code":500} → {"kind":"defaultError","code":500} -/
+def handleDispatch (j : Json) : Json :=
+  let d := (Diff.J.arr j "declared").filterMap (fun x => x.getNat?.toOption)
+  let k := Pair.readResp d (Diff.J.bool j "default") (Diff.J.nat j "code")
+  let (name, c) := match k with
+    | .success c => ("success", c)
+    | .typedError c => ("typedError", c)
+    | .defaultSuccess c => ("defaultSuccess", c)
+    | .defaultError c => ("defaultError", c)
+    | .apiError c => ("apiError", c)
+  Json.mkObj [("r", Json.str "ok"), ("kind", Json.str name), ("code", Json.num c)]
+
 partial def toJ (j : Json) : Schema.J :=
   match j with
   | .null => .null
@@ -194,6 +233,8 @@ def handle (line : String) : Json :=
     | "ops.gather" => handleGather j
     | "sec.serve" => handleSec j
     | "param.bind" => handleBind j
+    | "pair.roundtrip" => handlePair j
+    | "resp.dispatch" => handleDispatch j
     | "schema.check" => handleSchemaCheck j
     | "schema.tolerated" => handleTolerated j
     | op => Json.mkObj [("r", Json.str "bad-op"), ("op", Json.str op)]
